@@ -139,6 +139,89 @@ func RandFrame(r *ref.SplitMix64) Seg {
 	return Seg{Kind: "frame", Type: ref.TypeOf(f), Bytes: f}
 }
 
+// FrameWithCRC builds a valid frame of a type that is not decoded (so that its last
+// payload bytes are free) whose three CRC bytes are exactly the given value - all
+// zeros, all ones, three start bytes, ...  CRC-24Q is linear over GF(2) (no initial
+// value, no final xor): the last 24 payload bits are solved for by elimination.
+func FrameWithCRC(r *ref.SplitMix64, target uint32) Seg {
+	for {
+		n := r.Range(6, 60)
+		t := []int{1230, 1013, 1029, 4072, 1033, 63, 2000}[r.Intn(7)]
+		p := RandPayload(r, t, n, 0)
+		for i := n - 3; i < n; i++ {
+			p[i] = 0
+		}
+		f := []byte{0xD3, byte(n >> 8), byte(n)}
+		f = append(f, p...)
+		base := ref.CRC24Q(f)
+		// contribution of each of the 24 free bits
+		var col [24]uint32
+		zero := make([]byte, len(f))
+		for b := 0; b < 24; b++ {
+			bit := (len(f)-3)*8 + b
+			zero[bit/8] = 1 << uint(7-bit%8)
+			col[b] = ref.CRC24Q(zero)
+			zero[bit/8] = 0
+		}
+		// solve base ^ XOR(x_b * col[b]) = target by Gaussian elimination
+		want := base ^ target
+		var rows [24]uint32 // row i: coefficients of x for CRC bit i, bit 24 = right-hand side
+		for i := 0; i < 24; i++ {
+			var row uint32
+			for b := 0; b < 24; b++ {
+				if col[b]>>uint(i)&1 == 1 {
+					row |= 1 << uint(b)
+				}
+			}
+			if want>>uint(i)&1 == 1 {
+				row |= 1 << 24
+			}
+			rows[i] = row
+		}
+		ok := true
+		var pivotOf [24]int
+		rank := 0
+		for b := 0; b < 24 && ok; b++ {
+			sel := -1
+			for i := rank; i < 24; i++ {
+				if rows[i]>>uint(b)&1 == 1 {
+					sel = i
+					break
+				}
+			}
+			if sel < 0 {
+				ok = false
+				break
+			}
+			rows[rank], rows[sel] = rows[sel], rows[rank]
+			for i := 0; i < 24; i++ {
+				if i != rank && rows[i]>>uint(b)&1 == 1 {
+					rows[i] ^= rows[rank]
+				}
+			}
+			pivotOf[b] = rank
+			rank++
+		}
+		if !ok {
+			continue
+		}
+		for b := 0; b < 24; b++ {
+			if rows[pivotOf[b]]>>24&1 == 1 {
+				bit := (len(f)-3)*8 + b
+				f[bit/8] |= 1 << uint(7-bit%8)
+			}
+		}
+		c := ref.CRC24Q(f)
+		if c != target {
+			continue
+		}
+		f = append(f, byte(c>>16), byte(c>>8), byte(c))
+		if ref.IsFrame(f) {
+			return Seg{Kind: "frame", Type: ref.TypeOf(f), Bytes: f}
+		}
+	}
+}
+
 // FrameWithCRCByteD3 searches for a payload whose frame has a 0xD3 among its CRC
 // bytes (position 0, 1 or 2 of the CRC) - frames whose CRC contains the preamble
 // byte are explicitly named by C03.
@@ -236,6 +319,9 @@ func CleanStream(r *ref.SplitMix64, o CleanOpts) Stream {
 				f = Seg{Kind: "frame", Type: ref.TypeOf(fb), Bytes: fb}
 			case r.Chance(1, 12):
 				f = FrameWithCRCByteD3(r, r.Intn(3))
+			case r.Chance(1, 14):
+				// a valid frame whose CRC happens to be a remarkable value
+				f = FrameWithCRC(r, []uint32{0x000000, 0xFFFFFF, 0xD3D3D3, 0xD30000, 0x0000D3, 0x000001, 0x0D0A0D, 0x800000}[r.Intn(8)])
 			default:
 				f = RandFrame(r)
 			}
